@@ -12,6 +12,7 @@ def run(ctx):
     s = ctx['seed'] + 4
     return run_parts(ctx, [
         Part('filter_pair', 'corr_filters', 'run_pairs', [s, 400 if q else 8000], specs={'fp_safe_spec'}),
+        Part('filter_wrapper_code', 'corr_filterwrappergen', 'run', [s, 150 if q else 3000], count_exceptions=False),
         Part('filter_pair_code', 'corr_pairgen', 'run', [s, 150 if q else 3000], count_exceptions=False),
         Part('filter_pair_sequences', 'corr_filters', 'run_pair_sequences', [s, 60 if q else 1200], specs={'fp_safe_spec'}),
         Part('filter_tables', 'corr_filters', 'run_tables', [s, 150 if q else 3000], specs={'complete_spec'}),
